@@ -2,7 +2,7 @@
     For EVERY Unicode string / line list / (possibly stale) position the byte-slicing
     text functions return a value: no slice off a character boundary, no index out of
     range, no unsigned underflow, no loop that outruns its bound. *)
-From PLS Require Import Model.TextFns Proofs.TextFns Model.Analyzer Proofs.StrSpanTotal.
+From PLS Require Import Model.TextFns Proofs.TextFns Model.Analyzer Proofs.StrSpanTotal Proofs.WordSpec.
 
 Theorem C11_format_docstring_total : forall s, exists r, format_docstring s = Ok r.
 Proof. exact format_docstring_total. Qed.
@@ -14,6 +14,36 @@ Theorem C11_extract_word_total :
   forall wordc line character, exists r, extract_word_at_position wordc line character = Ok r.
 Proof. exact extract_word_total. Qed.
 Print Assumptions C11_extract_word_total.
+
+(** and the answer is the right one: exactly the maximal run of word characters around the
+    index (cut at character boundaries whatever the widths of the characters around it),
+    nothing when the index is past the line or on another character *)
+Theorem C11_extract_word_is_the_maximal_run :
+  forall wordc line ch,
+    match extract_word_at_position wordc line ch with
+    | Ok None => (len line <= ch)%N \/ exists c, nth_error line (N.to_nat ch) = Some c /\ wordc c = false
+    | Ok (Some w) => exists s e, run_of wordc line ch s e /\ w = skipn (N.to_nat s) (firstn (N.to_nat e) line)
+    | _ => False
+    end.
+Proof. exact extract_word_is_the_maximal_run. Qed.
+Print Assumptions C11_extract_word_is_the_maximal_run.
+
+(** the word does not depend on where inside it the cursor stands *)
+Theorem C11_extract_word_same_inside_the_word :
+  forall wordc line ch ch' w s e,
+    extract_word_at_position wordc line ch = Ok (Some w) ->
+    run_of wordc line ch s e -> (s <= ch')%N -> (ch' < e)%N ->
+    extract_word_at_position wordc line ch' = Ok (Some w).
+Proof. exact extract_word_same_inside_the_word. Qed.
+Print Assumptions C11_extract_word_same_inside_the_word.
+
+(** taking the word's first byte as "offset of the separator in front, plus one" panics
+    behind a multi-byte separator (seeded change S87) *)
+Theorem C11_extract_word_sep_plus_one_refuted :
+  extract_word_sep_plus_one lower line_s87 1 = Panic /\
+  extract_word_at_position lower line_s87 1 = Ok (Some [100; 98]%N) /\
+  extract_word_sep_plus_one lower [40; 100; 98]%N 1 = Ok (Some [100; 98]%N).
+Proof. exact extract_word_sep_plus_one_refuted. Qed.
 
 Theorem C11_find_function_name_position_total :
   forall content line name, exists r, find_function_name_position content line name = Ok r.
